@@ -274,6 +274,15 @@ fn exec_run(c: &Corpus, cfg: &RunCfg, dir: &Path, shim: &Path) -> RunOut {
         .env_remove("VERIF_GATE_LOG");
     if !cfg.real_rustfmt {
         cmd.env("RUSTFMT", "/bin/true");
+        // bulk runs: `cargo init` (workspace mode) is served by a stub that writes the same skeleton;
+        // the real-rustfmt runs use the real cargo
+        let stub = shim.parent().and_then(|p| p.parent()).map(|p| p.join("gen-sim/cargo-stub"));
+        if let Some(stub) = stub {
+            if stub.join("cargo").exists() {
+                let path = std::env::var("PATH").unwrap_or_default();
+                cmd.env("PATH", format!("{}:{}", stub.display(), path));
+            }
+        }
     } else {
         cmd.env_remove("RUSTFMT");
     }
@@ -560,8 +569,8 @@ fn run(args: &[String]) {
             "counters": counters,
             "known_findings_matched": kl,
             "components": {
-                "real": ["pilota-build (parser, resolver, salsa db, codegen, workspace writer) as a whole process", "rayon pool, dashmap, std/ahash hash maps", "rustfmt (in the real-rustfmt runs)", "cargo init (workspace mode)"],
-                "simulated": ["OS entropy (LD_PRELOAD getrandom/getentropy/syscall shim)", "ASLR (switched off with setarch -R)", "job release order (gate compiled in with --cfg pilota_verif)", "worker count (RAYON_NUM_THREADS)"],
+                "real": ["pilota-build (parser, resolver, salsa db, codegen, workspace writer) as a whole process", "rayon pool, dashmap, std/ahash hash maps", "rustfmt and cargo init (in the real-rustfmt runs)"],
+                "simulated": ["OS entropy (LD_PRELOAD getrandom/getentropy/syscall shim)", "ASLR (switched off with setarch -R)", "job release order (gate compiled in with --cfg pilota_verif)", "worker count (RAYON_NUM_THREADS)", "cargo init in the bulk unformatted runs (stub writing the same crate skeleton)"],
             },
             "explanation": "jobs are atomic in this model: two jobs overlapping inside write_item are not explored (that needs scheduling points inside dashmap/salsa). Uncontrolled multi-worker runs without the gate are not used for verdicts because they could not be replayed.",
         },
